@@ -228,6 +228,10 @@ func (g *gen) execInstr(in ssa.Instruction, st *state) {
 				// only a closure that leaves this function (passed on, stored) can be run by arbitrary callees
 				if t, ok := g.vals[a]; ok && closureEscapes(x) && g.closureMayWrite(x.Fn.(*ssa.Function), bi) {
 					g.captured = append(g.captured, t)
+					if g.capturedType == nil {
+						g.capturedType = map[string]types.Type{}
+					}
+					g.capturedType[t] = deref(a.Type())
 				}
 			}
 		}
